@@ -46,6 +46,18 @@ def cf_case(draw):
     for kind in ["dd"] + present:
         member_auto = auto and kind in ("dd", "rr")
         out[kind] = draw(gen.normalised_counts_case(binning=binning, npatch=npatch, auto=member_auto, exact=exact, positive_weights=draw(st.booleans())))
+    f = draw(st.sampled_from(gen.WEIGHT_SCALES))
+    for kind in ["dd"] + present:
+        gen.scale_weights(out[kind], f)
+    if draw(st.integers(0, 7)) == 7:
+        # object counts of large unweighted samples, handed over as integer arrays
+        dt = draw(st.sampled_from(["i4", "i8", "u4", "f4"]))
+        nb = len(binning["edges"]) - 1
+        for kind in ["dd"] + present:
+            w1 = np.array(draw(st.lists(st.integers(30_000, 120_000), min_size=nb * npatch, max_size=nb * npatch))).reshape(nb, npatch)
+            w2 = w1 if out[kind]["auto"] else np.array(draw(st.lists(st.integers(30_000, 120_000), min_size=nb * npatch, max_size=nb * npatch))).reshape(nb, npatch)
+            out[kind].update(w1=w1.tolist(), w2=w2.tolist(), w_dtype=dt)
+        out["int_weights"] = dt
     return out
 
 
@@ -88,7 +100,7 @@ def run_cf(case):
     name, outs, judged, terms = reference(c)
     vals = [t[judged] for t in terms.values()]
     distinct = bool(judged.any()) and all(np.all(v != 0) for v in vals) and len({tuple(np.round(v, 12)) for v in vals}) == len(vals)
-    ck = Checker(distinct, classes=[f"estimator:{name}", "members:" + "+".join(c["present"]), "auto" if c["auto"] else "cross", "exact" if c["exact"] else "float"])
+    ck = Checker(distinct, classes=[f"estimator:{name}", "members:" + "+".join(c["present"]), "auto" if c["auto"] else "cross", "exact" if c["exact"] else "float"] + ([f"weights-dtype:{c['int_weights']}"] if c.get("int_weights") else []))
     cf = gen.build_corrfunc(c)
     if name == "LS-without-dr":
         ck.cls("ls_without_dr(not judged)")
